@@ -338,8 +338,13 @@ func c17r3(w *World, rr *RuleRun) {
 	rr.Oblige(shortFuncName(ver), "every ID is accepted for a local-network address", w.P.Pos(ver.Pos()), okEx, "")
 	// what isLocalNetwork=false excludes
 	nets := map[string]string{}
+	haveGlobals := true
 	for _, g := range []string{"classA", "classB", "classC"} {
-		gl := w.P.Global("", g)
+		gl := w.P.GlobalOpt("", g)
+		if gl == nil {
+			haveGlobals = false
+			break
+		}
 		init := gl.Pkg.Func("init")
 		for _, f := range append([]*ssa.Function{init}, allInitFuncs(gl.Pkg)...) {
 			if f == nil {
@@ -357,6 +362,12 @@ func c17r3(w *World, rr *RuleRun) {
 			}
 		}
 	}
+	// or: one package-level table of nets, ranged over in full
+	tableNets, tableOK := w.netsTableForm(iln)
+	if !haveGlobals && !tableOK {
+		rr.Broken("isLocalNetwork: the private nets are neither the three package variables nor one package-level table ranged over in full")
+		return
+	}
 	sum := w.FE.Summary(iln, 0, "false", 0)
 	cidrForm := len(sum) > 0
 	for _, alt := range sum {
@@ -368,7 +379,16 @@ func c17r3(w *World, rr *RuleRun) {
 			}
 		}
 	}
-	if !cidrForm && w.netsLoopForm(iln, []string{"classA", "classB", "classC"}) {
+	if !haveGlobals {
+		cidrForm = true
+		sort.Strings(tableNets)
+		nets = map[string]string{}
+		if len(tableNets) == 3 {
+			nets["classA"], nets["classB"], nets["classC"] = tableNets[0], tableNets[1], tableNets[2]
+		} else {
+			nets["table"] = strings.Join(tableNets, ",")
+		}
+	} else if !cidrForm && w.netsLoopForm(iln, []string{"classA", "classB", "classC"}) {
 		// table-driven form: a loop over a local array holding exactly the three nets that returns
 		// true on the first Contains(ip) and runs over every element otherwise
 		cidrForm = true
@@ -391,13 +411,10 @@ func c17r3(w *World, rr *RuleRun) {
 	}
 	// ... and nothing else is exempted: every way isLocalNetwork answers true carries one of the
 	// BEP 42 exemptions as a positive fact
-	loopForm := w.netsLoopForm(iln, []string{"classA", "classB", "classC"})
-	tsum := w.FE.Summary(iln, 0, "true", 0)
-	if len(tsum) == 0 {
-		rr.Oblige(shortFuncName(iln), "local ⇒ one of the BEP 42 exemptions (10/8, 172.16/12, 192.168/16, link-local, loopback)", w.P.Pos(iln.Pos()), false, "no true-class summary")
-	}
-	for i, alt := range tsum {
-		okOnly := alt.Has("b", true, func(x *Term) bool {
+	loopForm := tableOK || (haveGlobals && w.netsLoopForm(iln, []string{"classA", "classB", "classC"}))
+	nTrue := 0
+	allowed := func(alt *Alt) bool {
+		return alt.Has("b", true, func(x *Term) bool {
 			if x.Op == OpCall && (suffixName(x) == "IsLinkLocalUnicast" || suffixName(x) == "IsLoopback") {
 				return true
 			}
@@ -414,7 +431,24 @@ func c17r3(w *World, rr *RuleRun) {
 			}
 			return false
 		})
-		rr.Oblige(shortFuncName(iln), fmt.Sprintf("local case %d ⇒ one of the BEP 42 exemptions (10/8, 172.16/12, 192.168/16, link-local, loopback)", i+1), w.P.Pos(iln.Pos()), okOnly, "{"+trunc(strings.Join(alt.Facts(), " ∧ "), 260)+"}")
+	}
+	for _, ex := range w.FE.analysisFor(iln).exits {
+		for _, alt := range ex.st {
+			v := w.FE.Resolve(alt, ex.ret.Results[0])
+			if v.IsConst("false") {
+				continue
+			}
+			nTrue++
+			okOnly := v.IsConst("true") && allowed(alt)
+			if !v.IsConst("true") {
+				// `return a || b || c` style: the returned term itself must be one of the exemptions
+				okOnly = v.Op == OpCall && (suffixName(v) == "IsLinkLocalUnicast" || suffixName(v) == "IsLoopback" || (suffixName(v) == "Contains" && (loopForm || strings.Contains(v.Args[0].String(), "class"))))
+			}
+			rr.At(w, ex.ret, "local ⇒ one of the BEP 42 exemptions (10/8, 172.16/12, 192.168/16, link-local, loopback)", okOnly, "returns "+trunc(v.String(), 60)+" under {"+trunc(strings.Join(alt.Facts(), " ∧ "), 220)+"}")
+		}
+	}
+	if nTrue == 0 {
+		rr.Oblige(shortFuncName(iln), "local ⇒ one of the BEP 42 exemptions (10/8, 172.16/12, 192.168/16, link-local, loopback)", w.P.Pos(iln.Pos()), false, "no path answers true")
 	}
 	rr.Oblige(shortFuncName(iln), "not-local ⇒ not link-local", w.P.Pos(iln.Pos()), okLL, "")
 	rr.Oblige(shortFuncName(iln), "not-local ⇒ not loopback", w.P.Pos(iln.Pos()), okLB, "")
@@ -724,4 +758,109 @@ func (w *World) netsLoopForm(fn *ssa.Function, globals []string) bool {
 		}
 	})
 	return okLoop
+}
+
+// netsTableForm: isLocalNetwork ranges over the whole of one package-level slice of nets, returning
+// true on the first Contains(ip); the slice is assigned once, in the package initialiser, from a
+// literal whose elements are mustParseCIDRIPNet(<constant>). Returns the constants.
+func (w *World) netsTableForm(fn *ssa.Function) ([]string, bool) {
+	var table *ssa.Global
+	okLoop := false
+	eachInstr([]*ssa.Function{fn}, func(_ *ssa.Function, ins ssa.Instruction) {
+		c := callInstrCommon(ins)
+		if c == nil || c.IsInvoke() || c.StaticCallee() == nil || c.StaticCallee().Name() != "Contains" || len(c.Args) != 2 {
+			return
+		}
+		ld, ok := c.Args[0].(*ssa.UnOp)
+		if !ok {
+			return
+		}
+		ia, ok := ld.X.(*ssa.IndexAddr)
+		if !ok {
+			return
+		}
+		sl, ok := ia.X.(*ssa.UnOp)
+		if !ok {
+			return
+		}
+		g, ok := sl.X.(*ssa.Global)
+		if !ok || !isRangeIndex(ia.Index, sl) {
+			return
+		}
+		cv, _ := ins.(ssa.Value)
+		if cv == nil || cv.Referrers() == nil {
+			return
+		}
+		for _, r := range *cv.Referrers() {
+			if iff, ok := r.(*ssa.If); ok {
+				for _, i2 := range iff.Block().Succs[0].Instrs {
+					if ret, ok := i2.(*ssa.Return); ok && len(ret.Results) == 1 && w.TS.Of(ret.Results[0]).IsConst("true") {
+						okLoop = true
+						table = g
+					}
+				}
+			}
+		}
+	})
+	if !okLoop || table == nil {
+		return nil, false
+	}
+	// the table's single assignment
+	var out []string
+	nStores := 0
+	ok := true
+	eachInstr(w.P.ModFuncs, func(f *ssa.Function, ins ssa.Instruction) {
+		st, isSt := ins.(*ssa.Store)
+		if !isSt || st.Addr != ssa.Value(table) {
+			return
+		}
+		nStores++
+		if f.Name() != "init" || f.Signature.Recv() != nil {
+			ok = false
+			return
+		}
+		sl, isSl := st.Val.(*ssa.Slice)
+		if !isSl {
+			ok = false
+			return
+		}
+		arr, isAl := sl.X.(*ssa.Alloc)
+		if !isAl || sl.Low != nil || sl.High != nil || arr.Referrers() == nil {
+			ok = false
+			return
+		}
+		n, _ := arrayLen(arr.Type().Underlying().(*types.Pointer).Elem())
+		for _, r := range *arr.Referrers() {
+			ia, isIA := r.(*ssa.IndexAddr)
+			if !isIA || ia.Referrers() == nil {
+				continue
+			}
+			for _, r2 := range *ia.Referrers() {
+				if es, isES := r2.(*ssa.Store); isES && es.Addr == ssa.Value(ia) {
+					v := w.TS.Of(es.Val)
+					if v.Op == OpCall && len(v.Args) == 1 && v.Args[0].Op == OpConst {
+						out = append(out, strings.Trim(v.Args[0].Name, `"`))
+					} else {
+						ok = false
+					}
+				}
+			}
+		}
+		if int64(len(out)) != n {
+			ok = false
+		}
+	})
+	// nothing else writes or appends to it
+	eachInstr(w.P.ModFuncs, func(f *ssa.Function, ins ssa.Instruction) {
+		if ia, isIA := ins.(*ssa.IndexAddr); isIA {
+			if ld, isLd := ia.X.(*ssa.UnOp); isLd && ld.X == ssa.Value(table) && ia.Referrers() != nil {
+				for _, r := range *ia.Referrers() {
+					if es, isES := r.(*ssa.Store); isES && es.Addr == ssa.Value(ia) {
+						ok = false
+					}
+				}
+			}
+		}
+	})
+	return out, ok && nStores == 1
 }
